@@ -186,7 +186,13 @@ func (l *Lexer) embeddedCodeToken() token.Token {
 	case ')':
 		return l.rightParenthesesToken()
 	case '"', '\'':
-		return l.newToken(token.STR, l.readString())
+		str, closed := l.readString()
+
+		if !closed {
+			return l.newToken(token.ILLEGAL, str)
+		}
+
+		return l.newToken(token.STR, str)
 	case '<':
 		if l.peekChar() == '=' {
 			l.tokenBegins()
@@ -436,7 +442,9 @@ func (l *Lexer) isPotentiallyLong(tok token.TokenType) bool {
 		(tok == token.CONTINUE && l.char == 'I' && l.peekChar() == 'f')
 }
 
-func (l *Lexer) readString() string {
+// readString returns the string's content and whether
+// the closing quote was found before the end of the input
+func (l *Lexer) readString() (string, bool) {
 	quote := l.char
 	result := ""
 
@@ -445,7 +453,7 @@ func (l *Lexer) readString() string {
 
 	if l.char == quote {
 		l.readChar() // skip the last quote
-		return result
+		return result, true
 	}
 
 	pos := l.pos
@@ -461,11 +469,12 @@ func (l *Lexer) readString() string {
 	}
 
 	result = l.input[pos:l.pos]
+	closed := l.char == quote
 
 	l.readChar() // skip the last quote
 
 	// remove slashes before quotes
-	return strings.ReplaceAll(result, "\\"+string(quote), string(quote))
+	return strings.ReplaceAll(result, "\\"+string(quote), string(quote)), closed
 }
 
 func (l *Lexer) readNumber() (string, bool) {
